@@ -48,6 +48,7 @@ fn first_diff(a: &str, b: &str) -> String {
 /// Child mode: print one fingerprint hash per requested (scenario, run_seed).
 fn child_mode(flows: &[LazyFlow]) -> bool {
     let Ok(spec) = std::env::var("VERIF_E5_CHILD") else { return false };
+    println!();
     for item in spec.split(';').filter(|s| !s.is_empty()) {
         let mut it = item.split(',');
         let (Some(name), Some(seed), Some(hexb)) = (it.next(), it.next(), it.next()) else { continue };
@@ -83,7 +84,7 @@ fn run_child(items: &[(String, u64, Option<Vec<u8>>)]) -> Result<BTreeMap<(Strin
     }
     let mut m = BTreeMap::new();
     for l in so.lines() {
-        if let Some(rest) = l.trim().strip_prefix("CHILDHASH ") {
+        if let Some(rest) = l.find("CHILDHASH ").map(|p| &l[p + "CHILDHASH ".len()..]) {
             let p: Vec<&str> = rest.split(' ').collect();
             if p.len() == 3 {
                 m.insert((p[0].to_string(), p[1].parse().unwrap_or(0)), p[2].to_string());
